@@ -4,7 +4,7 @@
    the indices of the cases whose observed result differs from the model's. *)
 From Coq Require Import List String Ascii Bool Arith ZArith.
 From Helm Require Import Common.Assoc Common.Strs Text.Split Text.KindSort Text.Classify Text.Uninstall Text.Batch
-  Gen.KindOrder Gen.Events.
+  Text.Lower Text.ClassifyU Text.UninstallU Text.Full Gen.KindOrder Gen.Events.
 Import ListNotations.
 Local Open Scope string_scope.
 
@@ -29,6 +29,14 @@ Inductive render_obs :=
 | ORenderOk (hooks : list ohook) (pieces : list (string * nat))
 (* otherwise the text itself *)
 | ORenderRaw (hooks : list ohook) (manifest : string).
+
+(* what a full run showed: Release.Hooks, Release.Manifest, Release.Info.Notes and the files
+   under the output directory (sorted by path), or the debugging blob of a YAML parse error *)
+Inductive full_obs :=
+| OFullYamlErr (blob : string)
+| OFullPostErr (hooks : list ohook) (notes : string) (written : list (string * string))
+| OFullOk (hooks : list ohook) (manifest : string) (notes : string) (written : list (string * string))
+| OFullOther.
 
 (* A file's text is given as pieces: literal text and references to documents of the head
    table; the harness checks that the concatenation is the file, byte for byte. *)
@@ -57,6 +65,14 @@ Inductive case :=
    KubeClient.Build for deletion, in order (positions in the head table; the harness checks
    that the stream is "\n---\n" ++ document, repeated, byte for byte) *)
 | CUninstall (pfiles : list (string * list piece)) (heads : list (string * option head)) (obs : option (list nat))
+(* action.Install dry run with crds/ files, NOTES.txt at several depths, --hide-secret,
+   --output-dir, SubNotes and a post-renderer: the arguments of renderResources, the chart as
+   Chart.CRDObjects sees it, the rendered files, the head table, the post-renderer as the table
+   of what it was handed and what it returned ([None] = it failed), the observation *)
+| CFull (o : opts) (ch : chart) (pfiles : list (string * list piece)) (heads : list (string * option head))
+        (pr : option (list (string * option string))) (obs : full_obs)
+(* strings.ToLower on a token *)
+| CLower (input : string) (obs : string)
 (* kube.Client.Create: Kind of every resource in list order, observed fn start/end events
    in the order they happened, which creates failed *)
 | CBarrier (kinds : list string) (failing : list nat) (evs : list event) (reported_failures : nat).
@@ -105,12 +121,30 @@ Definition list_eqb2 {A B} (f : A -> B -> bool) := fix go (a : list A) (b : list
   | _, _ => false
   end.
 
+(* renderResources with every option off (the render cases) *)
+Definition plain_opts : opts := mkOpts "c08chart" "c08-release" "" false false false false.
+Definition render_resources_u (head_of : string -> option head) (files : list (string * string)) : render_result :=
+  match render_full head_of go_to_lower plain_opts [] None files with
+  | FullOk hs txt _ _ => RenderOk hs txt
+  | _ => RenderErr
+  end.
+
+(* two maps (the model's in insertion order, the observed one sorted by path) are equal *)
+Definition same_map (model obs : list (string * string)) : bool :=
+  Nat.eqb (List.length model) (List.length obs) &&
+  forallb (fun kv => match aget (fst kv) model with Some v => String.eqb v (snd kv) | None => false end) obs.
+
+(* the post-renderer as a function: what it returned for the input it was handed; any other
+   input is answered with a text no observation contains *)
+Definition pr_fun (tbl : list (string * option string)) (b : string) : option string :=
+  match aget b tbl with Some r => r | None => Some "<the post-renderer was handed a different stream>" end.
+
 Definition case_ok (c : case) : bool :=
   match c with
   | CSplit input obs => list_eqb String.eqb (split_manifests input) obs
   | CSort unin pfiles heads obs =>
       let files := build_files heads pfiles in
-      match sort_manifests (head_table heads) (if unin then uninstall_order else install_order) files, obs with
+      match sort_manifests_g go_to_lower (head_table heads) (if unin then uninstall_order else install_order) files, obs with
       | SortErr, OSortErr => true
       | SortOk hs gs, OSortOk ohs ogs =>
           list_eqb2 (hook_eqb (map fst heads)) hs ohs && list_eqb2 (gobs_eqb (map fst heads)) gs ogs
@@ -120,30 +154,42 @@ Definition case_ok (c : case) : bool :=
       let files := build_files heads pfiles in
       match obs with
       | ORenderErr =>
-          match render_resources (head_table heads) install_order files with RenderErr => true | _ => false end
+          match render_resources_u (head_table heads) files with RenderErr => true | _ => false end
       | ORenderRaw ohs otxt =>
-          match render_resources (head_table heads) install_order files with
+          match render_resources_u (head_table heads) files with
           | RenderOk hs txt => list_eqb2 (hook_eqb (map fst heads)) hs ohs && String.eqb txt otxt
           | RenderErr => false
           end
       | ORenderOk ohs pieces =>
-          match render_resources (head_table heads) install_order files, pieces_text (map fst heads) pieces with
+          match render_resources_u (head_table heads) files, pieces_text (map fst heads) pieces with
           | RenderOk hs txt, Some otxt => list_eqb2 (hook_eqb (map fst heads)) hs ohs && String.eqb txt otxt
           | _, _ => false
           end
       end
   | CUninstall pfiles heads obs =>
       let files := build_files heads pfiles in
-      match render_resources (head_table heads) install_order files with
+      match render_resources_u (head_table heads) files with
       | RenderErr => match obs with None => true | Some _ => false end
       | RenderOk _ txt =>
-          match delete_order (head_table heads) uninstall_order txt, obs with
+          match delete_order_g go_to_lower (head_table heads) uninstall_order txt, obs with
           | DeleteOrder del _, Some idx =>
               list_eqb2 (fun m i => doc_is (map fst heads) i (m_content m)) del idx
           | DeleteCorrupted, None => true
           | _, _ => false
           end
       end
+  | CFull o ch pfiles heads pr obs =>
+      let files := build_files heads pfiles in
+      let hooks_ok hs ohs := list_eqb2 (hook_eqb (map fst heads)) hs ohs in
+      match render_full (head_table heads) go_to_lower o (chart_crds ch) (option_map pr_fun pr) files, obs with
+      | FullSortErr blob, OFullYamlErr oblob => String.eqb blob oblob
+      | FullPostErr hs notes w, OFullPostErr ohs onotes ow =>
+          hooks_ok hs ohs && String.eqb notes onotes && same_map w ow
+      | FullOk hs txt notes w, OFullOk ohs otxt onotes ow =>
+          hooks_ok hs ohs && String.eqb txt otxt && String.eqb notes onotes && same_map w ow
+      | _, _ => false
+      end
+  | CLower input obs => String.eqb (go_to_lower input) obs
   | CBarrier kinds failing evs nfail =>
       let fails := fun j => existsb (Nat.eqb j) failing in
       admissible kinds fails evs
